@@ -95,6 +95,9 @@ def gen_cases(rng, thorough):
             c["nfacedims"] = 2
         elif r < 0.16:
             c["facedim_in_ds"] = False
+            # the key names nothing at all, or something that exists in the dataset but is not a dimension: a coordinate
+            # along the real face dimension (holding the very face numbers), or a data variable
+            c["facedim_kind"] = rng.choice(["missing", "coord", "var"])
         cases.append(c)
     # tables that are reciprocal in themselves but speak of an axis the grid lacks, or of a face beyond the face
     # dimension, on BOTH ends of their links (a consistent renaming of a good table)
@@ -127,7 +130,12 @@ def execute(case):
     ds = xr.Dataset(coords=coords)
     if not case.get("facecoord", True):
         ds["v0"] = (("d9", "d1"), np.zeros((nf, 3)))           # the dimension exists, without a coordinate
-    fc = faces.fc_dict(case["table"], nf, "d9" if case["facedim_in_ds"] else "d_missing")
+    kind = case.get("facedim_kind", "missing")
+    if not case["facedim_in_ds"] and kind == "coord":
+        ds = ds.assign_coords(facelabel=("d9", np.arange(nf)))
+    if not case["facedim_in_ds"] and kind == "var":
+        ds["facemask"] = ("d9", np.arange(nf))
+    fc = faces.fc_dict(case["table"], nf, "d9" if case["facedim_in_ds"] else {"missing": "d_missing", "coord": "facelabel", "var": "facemask"}[kind])
     if case["nfacedims"] == 2:
         fc["d_second"] = {0: {}}
     gc = {"a1": {"center": "d1", "left": "d2"}}
